@@ -509,3 +509,61 @@ func ruleC11R6(c *Ctx) {
 	}
 	c.check(okF, "C11.R6", ncf, "factory passes its suffix to the generator", ncf.Pos(), "newChunkIDGenerator(idSuffix)", "the factory's id suffix does not reach the generator")
 }
+
+// R10 (added after seed c11f; delegation): the bytes of a chunk reach its buffer in the order they were written because
+// nothing of the module's own stands between the chunk and the library's compressor. Every function of the module that
+// hands out an io.WriteCloser built on a writer parameter (InitGzipCompessor, whatever is assigned to InitCompressorFunc)
+// returns the library's writer itself — gzip.NewWriterLevel(w, …) on that parameter — or nil. A module type that buffers,
+// stages or re-orders writes in between is UNDECIDED (a failure): the order of bytes through a hand-written buffer is a
+// value-level fact this family does not decide.
+func init() {
+	register("C11", "C11.R10", ruleC11R10)
+}
+
+func ruleC11R10(c *Ctx) {
+	n := 0
+	for _, fn := range c.P.universe {
+		if fn.Parent() != nil || fn.Blocks == nil || !strings.HasPrefix(fnPkgPath(fn), modPath+"/output/") {
+			continue
+		}
+		sig := fn.Signature
+		if sig.Recv() != nil || sig.Results().Len() != 1 || sig.Results().At(0).Type().String() != "io.WriteCloser" {
+			continue
+		}
+		var wparam *ssa.Parameter
+		for _, p := range fn.Params {
+			if p.Type().String() == "io.Writer" {
+				wparam = p
+			}
+		}
+		if wparam == nil {
+			continue
+		}
+		n++
+		for _, rv := range returnedValues(fn, 0) {
+			v := strip(rv.Val)
+			if k, ok := v.(*ssa.Const); ok && k.IsNil() {
+				continue
+			}
+			if mi, ok := v.(*ssa.MakeInterface); ok {
+				v = strip(mi.X)
+			}
+			if ex, ok := v.(*ssa.Extract); ok {
+				v = strip(ex.Tuple)
+			}
+			okLib := false
+			what := canonOf(v)
+			if cl, ok := v.(*ssa.Call); ok && cl.Common().StaticCallee() != nil {
+				name := extName(cl.Common().StaticCallee())
+				what = name
+				if !strings.HasPrefix(fnPkgPath(cl.Common().StaticCallee()), modPath) && strings.Contains(name, "NewWriter") && len(cl.Common().Args) > 0 && strip(cl.Common().Args[0]) == ssa.Value(wparam) {
+					okLib = true
+				}
+			}
+			c.check(okLib, "C11.R10", fn, "the compressor handed to a chunk is the library's writer on the chunk's buffer", rv.At.Pos(),
+				"the returned io.WriteCloser is <library>.NewWriter…(w, …) on the writer parameter",
+				"UNDECIDED (counts as failure): the io.WriteCloser handed out is "+what+", not the library's writer created directly on the writer parameter: a module type between the chunk and the compressor may buffer, stage or re-order writes, and the order of bytes through it is not decided by this analysis")
+		}
+	}
+	c.floor("C11.R10", "compressor constructors", n, 1)
+}
